@@ -134,7 +134,7 @@ theorem monoStep (p : GProg) : ∀ f, MonoStep p f := by
           | none => exact iFields _ _ _ _ _
           | some d =>
             simp only
-            cases h2 : linkVal f p m d lt (ownerMark o i σ1) with
+            cases h2 : linkVal f p m d lt (ownerBeginDflt o i (ownerMark o i σ1)) with
             | ok y =>
               rw [(iVal _ _ _ _).ok h2]
               obtain ⟨σ3, v⟩ := y
@@ -157,7 +157,7 @@ theorem monoStep (p : GProg) : ∀ f, MonoStep p f := by
             rw [(iTy _ _ _).ok h]
             obtain ⟨σ1, lt⟩ := x
             simp only
-            cases h2 : linkVal f p m c.val lt { σ1 with ctype := (m, n) :: σ1.ctype } with
+            cases h2 : linkVal f p m c.val lt { σ1 with ctype := (m, n) :: σ1.ctype, clink := (m, n) :: σ1.clink } with
             | ok y => rw [(iVal _ _ _ _).ok h2]; right; rfl
             | err => rw [(iVal _ _ _ _).err h2]; right; rfl
             | fuel => left; rfl
@@ -362,13 +362,21 @@ theorem monoStep (p : GProg) : ∀ f, MonoStep p f := by
             · right; rfl
             · exact iSF _ _ _ _ _ _ _
           · rename_i d _
-            cases h : linkVal f p m d (fieldTypeIn p σ sm sn j fld) σ with
-            | ok y =>
-              rw [(iVal _ _ _ _).ok h]
-              obtain ⟨σ1, v⟩ := y
-              exact iSF _ _ _ _ _ _ _
-            | err => rw [(iVal _ _ _ _).err h]; right; rfl
-            | fuel => left; rfl
+            split
+            · right; rfl
+            · cases h : linkVal f p m d (fieldTypeIn p σ sm sn j fld) σ with
+              | ok y =>
+                rw [(iVal _ _ _ _).ok h]
+                obtain ⟨σ1, v⟩ := y
+                exact iSF _ _ _ _ _ _ _
+              | err => rw [(iVal _ _ _ _).err h]; right; rfl
+              | fuel => left; rfl
+
+theorem endService_stable (k : Nat × Name) {a b : Res St} (h : Stable a b) :
+    Stable (endService k a) (endService k b) := by
+  rcases h with h | h
+  · left; rw [h]; rfl
+  · right; rw [h]
 
 theorem forEach_stable {α : Type} (g g' : α → St → Res St)
     (hg : ∀ x σ, Stable (g x σ) (g' x σ)) : ∀ (xs : List α) (σ : St), Stable (forEach g xs σ) (forEach g' xs σ) := by
@@ -447,14 +455,14 @@ theorem service_stable (p : GProg) (o : Orders) :
         split
         · right; rfl
         · cases hp : s.parent with
-          | none => exact forEach_stable _ _ (fun x σ => hfn m n s x σ) _ _
+          | none => exact endService_stable _ (forEach_stable _ _ (fun x σ => hfn m n s x σ) _ _)
           | some pname =>
             simp only
-            cases h : resolveSvc f p o m pname { σ with vflag := (m, n) :: σ.vflag } with
+            cases h : resolveSvc f p o m pname { σ with vflag := (m, n) :: σ.vflag, vlink := (m, n) :: σ.vlink } with
             | ok x =>
               rw [(iR _ _ _).ok h]
               obtain ⟨σ1, pk⟩ := x
-              exact forEach_stable _ _ (fun x σ => hfn m n s x σ) _ _
+              exact endService_stable _ (forEach_stable _ _ (fun x σ => hfn m n s x σ) _ _)
             | err => rw [(iR _ _ _).err h]; right; rfl
             | fuel => left; rfl
     · intro m n σ
@@ -1001,6 +1009,12 @@ theorem linkFunc_ne_fuel (p : GProg) (ht : TypesOnly p) (fuel m : Nat) (svc : Na
           · rw [h2]; intro hh; cases hh
           · rw [h2]; exact hex σ2
 
+theorem endService_ne_fuel (k : Nat × Name) {r : Res St} (h : r ≠ .fuel) : endService k r ≠ .fuel := by
+  cases r with
+  | ok σ => intro hh; cases hh
+  | err => intro hh; cases hh
+  | fuel => exact absurd rfl h
+
 /-- every unflagged service is in `V` -/
 def CoverS (p : GProg) (σ : St) (V : List (Nat × Name)) : Prop :=
   ∀ m n, (lookupService p m n).isSome = true → σ.vflag.contains (m, n) = false → (m, n) ∈ V
@@ -1069,16 +1083,16 @@ theorem svcTotal (p : GProg) (ht : TypesOnly p) (o : Orders) : ∀ f, SvcTotal p
             have := funcWeight_le_svc hg
             exact linkFunc_ne_fuel p ht f m n g σ' ((typesOnly_mod ht hmod).2.2 n s hmem g hg) (by omega)
         cases hflag : σ.vflag.contains (m, n) with
-        | true => simp only [if_true]; intro h; cases h
+        | true => simp only [if_true]; split <;> (intro h; cases h)
         | false =>
           simp only [Bool.false_eq_true, if_false]
           cases hp : s.parent with
-          | none => exact forEach_ne_fuel _ (fun x σ' => hfuncs x σ') _ _
+          | none => exact endService_ne_fuel _ (forEach_ne_fuel _ (fun x σ' => hfuncs x σ') _ _)
           | some pname =>
             simp only
             have hmemV : (m, n) ∈ V := hc m n (by rw [hl]; rfl) hflag
             have hlen := dropKey_length hmemV
-            have hc' : CoverS p { σ with vflag := (m, n) :: σ.vflag } (dropKey (m, n) V) := by
+            have hc' : CoverS p { σ with vflag := (m, n) :: σ.vflag, vlink := (m, n) :: σ.vlink } (dropKey (m, n) V) := by
               intro m' n' hl' hc''
               have hne : (m', n') ≠ (m, n) := by
                 intro heq
@@ -1094,10 +1108,10 @@ theorem svcTotal (p : GProg) (ht : TypesOnly p) (o : Orders) : ∀ f, SvcTotal p
               exact this
             have hpl : pname.length + 1 ≤ svcWeight s := by
               unfold svcWeight; rw [hp]; simp only; omega
-            cases h : resolveSvc f p o m pname { σ with vflag := (m, n) :: σ.vflag } with
+            cases h : resolveSvc f p o m pname { σ with vflag := (m, n) :: σ.vflag, vlink := (m, n) :: σ.vlink } with
             | ok x =>
               obtain ⟨σ1, pk⟩ := x
-              exact forEach_ne_fuel _ (fun x σ' => hfuncs x σ') _ _
+              exact endService_ne_fuel _ (forEach_ne_fuel _ (fun x σ' => hfuncs x σ') _ _)
             | err => intro hh; cases hh
             | fuel => exact absurd h (iR m pname _ _ hc' (by omega))
     · intro m name σ V hc hf
